@@ -54,7 +54,15 @@ impl Violation {
     }
 }
 
-pub const BITMAP_BITS: usize = 1 << 25;
+/// sketch size in bits: 2^25 (quick) or 2^27 (thorough, where tens of millions of distinct
+/// fingerprints would saturate the smaller one); every process of a batch uses the same size
+pub fn bitmap_bits() -> usize {
+    static BITS: std::sync::OnceLock<usize> = std::sync::OnceLock::new();
+    *BITS.get_or_init(|| {
+        let log2: u32 = std::env::var("GSIM_SKETCH_LOG2").ok().and_then(|s| s.parse().ok()).unwrap_or(25);
+        1usize << log2.clamp(20, 30)
+    })
+}
 
 /// Fixed-size sketch of a set of 64-bit fingerprints: the number of set bits
 /// is a lower bound of the number of distinct fingerprints (collisions only
@@ -67,14 +75,14 @@ pub struct Bitmap {
 impl Default for Bitmap {
     fn default() -> Self {
         Bitmap {
-            words: vec![0; BITMAP_BITS / 64],
+            words: vec![0; bitmap_bits() / 64],
         }
     }
 }
 
 impl Bitmap {
     pub fn set(&mut self, h: u64) {
-        let i = (rng::mix(h) as usize) % BITMAP_BITS;
+        let i = (rng::mix(h) as usize) % bitmap_bits();
         self.words[i / 64] |= 1 << (i % 64);
     }
     pub fn count(&self) -> u64 {
@@ -99,7 +107,7 @@ impl Bitmap {
     }
     pub fn to_bytes(&self) -> Vec<u8> {
         let idx = self.indices();
-        if idx.len() * 4 < BITMAP_BITS / 8 {
+        if idx.len() * 4 < bitmap_bits() / 8 {
             let mut out = vec![b'S'];
             for i in idx {
                 out.extend_from_slice(&i.to_le_bytes());
